@@ -61,6 +61,20 @@ Fixpoint multi_map (a : val) : bool :=
     the equal keys occur in [w] (the value decoded from the implementation's
     bytes, whose maps are in wire order).  Encoding the result must reproduce
     the implementation's bytes exactly. *)
+(** keys are matched up to the contents of the fields plenc does not encode *)
+Fixpoint erase_skips (a : val) : val :=
+  match a with
+  | VSkip _ => VSkip 0
+  | VPtr (Some x) => VPtr (Some (erase_skips x))
+  | VNull p x => VNull p (erase_skips x)
+  | VStruct l => VStruct (map erase_skips l)
+  | VSlice l => VSlice (map erase_skips l)
+  | _ => a
+  end.
+Definition key_eqb (a b : val) : bool := val_eqb (erase_skips a) (erase_skips b).
+Fixpoint key_lookup (k : val) (m : list (val * val)) : option val :=
+  match m with [] => None | (k', y) :: r => if key_eqb k k' then Some y else key_lookup k r end.
+
 Definition order_like {K V} (keq : K -> K -> bool) (m : list (K * V)) (l : list (K * V)) : list (K * V) :=
   flat_map (fun ky => match find (fun kx => keq (fst kx) (fst ky)) l with Some kx => [kx] | None => [] end) m
   ++ filter (fun kx => negb (existsb (fun ky => keq (fst kx) (fst ky)) m)) l.
@@ -100,11 +114,11 @@ Fixpoint reorder (a b : val) {struct a} : val :=
                 | _, _ => l
                 end) l m)
   | VMap (Some l), VMap (Some m) =>
-    VMap (Some (order_like val_eqb m
+    VMap (Some (order_like key_eqb m
       ((fix go (l : list (val * val)) : list (val * val) :=
           match l with
           | [] => []
-          | (k, x) :: l' => (k, match map_lookup k m with Some y => reorder x y | None => x end) :: go l'
+          | (k, x) :: l' => (k, match key_lookup k m with Some y => reorder x y | None => x end) :: go l'
           end) l)))
   | VJson p x, VJson q y => VJson p (jv_reorder x y)
   | _, _ => a
